@@ -114,6 +114,9 @@ func runC03(c *core.Ctx) {
 	esc := EscapeTruncations()
 	c.Pool.ParFor(len(esc), func(w, i int) { c.CheckCase(w, "lex", thm, esc[i]) })
 	c.Count("escape_truncations", int64(len(esc)))
+	lf := LexFamilies()
+	c.Pool.ParFor(len(lf), func(w, i int) { c.CheckCase(w, "lex", thm, []byte(lf[i])) })
+	c.Count("block_string_bodies_and_non_token_placements", int64(len(lf)))
 	escm := EscapeMutations()
 	c.Pool.ParFor(len(escm), func(w, i int) { c.CheckCase(w, "lex", thm, escm[i]) })
 	c.Count("escape_mutations", int64(len(escm)))
